@@ -1,6 +1,6 @@
 (* C17 - the ring as the harness observes it: walking .next from the sentinel visits exactly the
    recency list, walking .prev visits its reverse, and prev (next n) = n on the ring. *)
-From DV Require Import Base.Prelude Model.CacheM Proofs.CacheRing Proofs.CacheDict Proofs.CacheLru
+From DV Require Import Base.Prelude Model.CacheM Model.CacheSpecM Proofs.CacheRing Proofs.CacheDict Proofs.CacheLru
   Proofs.CacheSpec Proofs.CacheThm.
 
 Lemma walk_next : forall s l a fuel,
